@@ -137,3 +137,7 @@ fn resize_and_zero_file(mut file: &File, len: u64) -> std::io::Result<()> {
     }
     Ok(())
 }
+
+#[cfg(kani)]
+#[path = "/verif/units/kani/bitbox_ht_file.rs"]
+mod verif_kani;
